@@ -102,6 +102,9 @@ pub struct Ctx {
     pub outcome: String,
     /// verbose human-readable event list (only when tracing a single run)
     pub trace: Option<Vec<String>>,
+    /// when set, the pipeline stores the medium as the consumer saw it: (bytes, damaged, dropped)
+    pub collect_medium: bool,
+    pub final_medium: Vec<(Vec<u8>, bool, bool)>,
 }
 
 impl Ctx {
